@@ -289,7 +289,7 @@ func (r *Result) WriteEvidence(dir string, seed int64, totalWall float64) error 
 		"exceptions_applied": r.Stats.Exceptions,
 		"known_findings":     r.Known,
 		"checker_cmd":        "/verif/bin/check " + r.Prop.ID + " " + r.Tier,
-		"trusted_base":       []string{"go/types type checker", "golang.org/x/tools v0.29.0 go/packages, go/cfg, go/ssa", "hand-frozen idiom/exception tables in /verif/sa/props (each with a reason)"},
+		"trusted_base":       []string{"go/types type checker", "golang.org/x/tools v0.29.0 go/packages, go/cfg", "hand-frozen idiom/exception tables in /verif/sa/props (each with a reason)"},
 		"exhaustive":         true,
 	}
 	if r.Sens != nil {
